@@ -111,11 +111,6 @@ def isContainer : T → Bool
   | .tup _ (_ :: _) => true
   | _ => false
 
-/-- Restriction on a chain of several terms (everywhere): the last term is not a tuple with fields, so
-    that `chain_doc` never takes its flattened-head path. The formatter and parser MODELS cover all
-    chains; the theorems need this. -/
-def chainOk (first : T) (more : List T) : Bool := !isContainer ((first :: more).getLastD first)
-
 /-- an optional name is in the language of the given lexical class -/
 def optOk (ok : Str → Bool) : Option Str → Prop
   | none => True
@@ -129,7 +124,7 @@ def T.WF : T → Prop
   | .bin bs => ∀ b ∈ bs, b < 256
   | .str _ => True
   | .tup name fs => optOk isTupleNameStr name ∧ F.WFList fs
-  | .chain t more => more ≠ [] ∧ isPrim t = true ∧ T.WF t ∧ T.WFTerms more ∧ chainOk t more = true
+  | .chain t more => more ≠ [] ∧ isPrim t = true ∧ T.WF t ∧ T.WFTerms more
 /-- the further terms of a chain: terms, well-formed -/
 def T.WFTerms : List T → Prop
   | [] => True
